@@ -1,21 +1,77 @@
 #!/usr/bin/env python3
-"""Applies every property-preserving refactoring (benign/**/benign*.diff) to /repo (or $VERIF_REPO) in turn, runs
-every quick check (via tools/run_benign.sh), expects exit 0 everywhere, restores /repo.
-Writes /verif/benign_report.json. A non-zero result is a false alarm of the machinery (or a diff
-that is not property-preserving after all): triage, never whitelist."""
-import glob, json, os, subprocess, sys
-rep = []
-allok = True
-for p in sorted(glob.glob("/verif/benign/**/benign*.diff", recursive=True)):
-    name = os.path.relpath(p, "/verif/benign")
-    out = subprocess.run(["/verif/tools/run_benign.sh", p] + sys.argv[1:], capture_output=True, text=True)
-    alarms = [l for l in out.stdout.splitlines() if l.startswith("ALARM")]
-    ok = out.returncode == 0
-    allok &= ok
-    rep.append({"benign": name, "exit": out.returncode, "alarms": alarms, "no_alarm": ok})
-    print(name, "exit", out.returncode, alarms, flush=True)
-env = os.environ.get("VERIF_HOME")
-if env:
-    rep = {"run_in": "scratch worktree of /repo HEAD and scratch copy of /verif (tools/scratch_env.sh), so that it could run beside the seeded regression", "results": rep}
-json.dump(rep, open("/verif/benign_report.json", "w"), indent=1)
-sys.exit(0 if allok else 1)
+"""Applies every property-preserving refactoring (benign/**/benign*.diff) to /repo (or $VERIF_REPO) in turn,
+runs the quick checks whose simulated worlds execute the touched source files (all 18 with --all, or when a
+file is not in the table below) via tools/run_benign.sh, expects exit 0 everywhere, restores the tree.
+Writes /verif/benign_report.json. A non-zero result is a false alarm of the machinery (or a diff that is not
+property-preserving after all): triage, never whitelist.
+
+Which checks can see a file (from the scenario lists in sim/src/checks/mod.rs):
+  W-T  routing table alone ............ C07 C08 C16        executes kbucket (C16 also the Discv5 constructor's filters)
+  W-Q  query state machines / pool .... C09 C10            executes query_pool
+  W-R  inbound filter ................. C18                executes socket/filter, permit_ban
+  W-H  real handlers .................. C01 C02 C03 C04 C12 C13 C15 C19   executes handler, session, packet, rpc, socket;
+                                        the packet filter is on only in the traffic world (C04 C13 C19)
+  W-S  real service, scripted handler . C01 C09 C10 C11 C12 C14 C17 C20   executes service, kbucket, query_pool, rpc, ipmode
+  W-F  complete nodes ................. C09 C10 C11 C13 C14 C19 C20       executes everything
+"""
+import glob, json, os, re, subprocess, sys
+
+ALL = "C01 C02 C03 C04 C07 C08 C09 C10 C11 C12 C13 C14 C15 C16 C17 C18 C19 C20".split()
+WF = {"C09", "C10", "C11", "C13", "C14", "C19", "C20"}
+WH = {"C01", "C02", "C03", "C04", "C12", "C13", "C15", "C19"}
+WS = {"C01", "C09", "C10", "C11", "C12", "C14", "C17", "C20"}
+AREAS = [
+    (r"^src/socket/filter/|^src/permit_ban\.rs", {"C18", "C04", "C13", "C19", "C11", "C20"} | WF),
+    (r"^src/kbucket", {"C07", "C08", "C16"} | WS | WF),
+    (r"^src/query_pool", {"C09", "C10", "C11"} | WF),
+    (r"^src/service|^src/ipmode|^src/discv5\.rs|^src/config\.rs", WS | WF | {"C16"}),
+    (r"^src/handler/|^src/packet/|^src/socket/|^src/node_info\.rs", WH | WF),
+    (r"^src/rpc|^src/lru_time_cache\.rs|^src/error\.rs", WH | WS | WF),
+]
+
+
+def checks_for(diff):
+    files = re.findall(r"^\+\+\+ b/(\S+)", open(diff).read(), re.M)
+    sel = set()
+    for f in files:
+        for pat, cs in AREAS:
+            if re.search(pat, f):
+                sel |= cs
+                break
+        else:
+            return ALL, files
+    return [c for c in ALL if c in sel], files
+
+
+if __name__ == "__main__":
+    run_all = "--all" in sys.argv
+    dry = "--dry" in sys.argv
+    ids_arg = [a for a in sys.argv[1:] if not a.startswith("--")]
+    rep = []
+    allok = True
+    total = 0
+    for p in sorted(glob.glob("/verif/benign/**/benign*.diff", recursive=True)):
+        name = os.path.relpath(p, "/verif/benign")
+        ids, files = checks_for(p)
+        if run_all:
+            ids = ALL
+        if ids_arg:
+            ids = ids_arg
+        total += len(ids)
+        if dry:
+            print(name, len(ids), " ".join(ids), files)
+            continue
+        out = subprocess.run(["/verif/tools/run_benign.sh", p] + ids, capture_output=True, text=True)
+        alarms = [l for l in out.stdout.splitlines() if l.startswith("ALARM")]
+        ok = out.returncode == 0
+        allok &= ok
+        rep.append({"benign": name, "files": files, "checks_run": ids, "exit": out.returncode, "alarms": alarms, "no_alarm": ok})
+        print(name, len(ids), "checks", "exit", out.returncode, alarms, flush=True)
+    if dry:
+        print(total, "check runs of", 18 * len(glob.glob("/verif/benign/**/benign*.diff", recursive=True)))
+        sys.exit(0)
+    doc = {"selection": "checks whose simulated worlds execute the touched files (table in tools/benign_regression.py); --all runs all 18", "results": rep}
+    if os.environ.get("VERIF_HOME"):
+        doc["run_in"] = "scratch worktree of /repo HEAD and scratch copy of /verif (tools/scratch_env.sh), beside the seeded regression"
+    json.dump(doc, open("/verif/benign_report.json", "w"), indent=1)
+    sys.exit(0 if allok else 1)
